@@ -196,6 +196,10 @@ def quadrant_signature(image):
     return (image.size, tuple(out))
 
 
+# blobs for which `pillow_image.save` raises in RasterImage.__init__ (the model's `Raster.encodable = false`)
+UNENCODABLE = {'tiff_f'}
+
+
 def make_blobs():
     """{name: (bytes, pillow format | None, has exif, svg parses)}"""
     from PIL import Image
@@ -216,6 +220,10 @@ def make_blobs():
     out = io.BytesIO()
     base.save(out, format='MPO', save_all=True, append_images=[base.transpose(Image.Transpose.FLIP_LEFT_RIGHT)])
     blobs['mpo'] = (out.getvalue(), 'MPO', False, False)
+    # Pillow opens it, but cannot write it as PNG (`OSError: cannot write mode F as PNG`): RasterImage raises
+    out = io.BytesIO()
+    base.convert('F').save(out, format='TIFF')
+    blobs['tiff_f'] = (out.getvalue(), 'OTHER', False, False)
     blobs['svg'] = (b'<svg xmlns="http://www.w3.org/2000/svg" width="64" height="32"><rect width="32" height="16"/></svg>',
                     None, False, True)
     blobs['badsvg'] = (b'<svg xmlns="http://www.w3.org/2000/svg"><rect', None, False, False)
